@@ -1,7 +1,7 @@
 """Property -> units / stand-ins / level table (mirrors DESIGN.md §1)."""
 
 PROPS = {
-    "C01": dict(units=["RAT", "EVALOPS"], standin=True, level="proof",
+    "C01": dict(units=["RAT", "EVALOPS", "EVALARMS"], standin=True, level="proof",
                 explanation="16 Rational operator impls, recip, pow, eval::{add,sub,mul,div,pow} on plain numbers (exact field operations, unbounded pow loop) proved by Verus; the OPERATION fold / NUMBER / PERCENTAGE arms of eval() are a bounded stand-in"),
     "C02": dict(units=["POWERS", "COMPOUND", "EVALOPS"], standin=True, level="proof",
                 explanation="Powers::insert representation invariant, base_units, Compound::factor <=> same dimensions, eval::{add,sub} verdict / error mapping / unit adoption proved by Verus; OP_CAST arm bounded"),
@@ -21,19 +21,19 @@ PROPS = {
                 explanation="CELSIUS offset constant and both FAHRENHEIT closures against the defining formulas (TABLES); apply_conversion Offset/Methods arms, check_offset, Compound::factor chain postcondition and offset guard, Compound::mul offset guard (COMPOUND); formulas, composition, inverse as lemmas over those contracts"),
     "C17": dict(units=[], kani="ids", standin=True, level="proof",
                 explanation="Kani function contract on the real id_to_derived (every u32 id decodes to a unit carrying that id), every Derived static decodes through its own id to itself, ids equal the pinned list; serde derive output is a bounded stand-in"),
-    "C07": dict(units=["FROMSTR", "LEXER"], standin=True, level="proof",
+    "C07": dict(units=["FROMSTR", "LEXER", "EVALARMS"], standin=True, level="proof",
                 explanation="impl FromStr for Rational proved against an independent literal grammar (spec/lit_spec.rs): Ok(q) => q is exactly the number the byte string spells; every literal of the grammar with an exponent <= u32::MAX is accepted; unbounded loops closed by invariants; NUMBER/PERCENTAGE arms of eval() and the lexer's choice of extent are bounded-checked"),
     "C06": dict(units=["PARSER", "GRAMMAR"], standin=True, level="exploration",
                 explanation="bounded enumeration of operator sequences x parenthesisations x blank layouts against an independent precedence-climbing evaluator; proved components: op() priority table, skip bookkeeping of Parser::{count_skip,skip,eat}, operation()/value()/call_arguments() skip contracts"),
     "C08": dict(units=["DISPLAYCORE"], standin=True, level="exploration",
                 explanation="bounded read-back contract over a grid of values x limits x exponent limits; proved core: the emit digit step is exact long division (digit <= 9, remainder stays below the denominator) and digits() is the decimal magnitude"),
-    "C11": dict(units=["POWERS", "RAT", "COMPOUND", "EVALOPS", "EVALUNIT", "LEXER", "PARSER", "GRAMMAR", "FROMSTR", "DISPLAYCORE"], standin=True, level="proof",
+    "C11": dict(units=["POWERS", "RAT", "COMPOUND", "EVALOPS", "EVALUNIT", "EVALARMS", "LEXER", "PARSER", "GRAMMAR", "FROMSTR", "DISPLAYCORE"], standin=True, level="proof",
                 explanation="absence of overflow / failed assertion (former debug_assert!) / unwrap / out-of-bounds in every function under contract, under the stated bounds; error spans are token boundaries (LEXER + PARSER); eval() driver, Db::lookup, Display and the CLI are a bounded token-soup stand-in"),
 }
 
 COMMON_TRUST = [
     "Verus 0.2026.09.13 + bundled Z3, rustc 1.98.1; single-file mode (no linking): every dependency type is a shim with assumed contracts",
-    "extraction rules of DESIGN.md §4: R1 attributes/doc comments stripped, visibility widened; R2 debug_assert -> static obligation; R3 break-value lowering; R4 `&a op &b` -> operator call; R5 for-desugaring; R6 outlining of iterator-adapter / fn-pointer expressions into assumed fns; R7 closure lifting; R8 nested fn hoisting; R9 trait-impl methods emitted as inherent methods / associated types spelled out; R10 type ascription; R11 fn renamed to dodge a Verus name clash; R12 match-arm guard / expression arm spelled as a block; R13 `mut` by-value parameter as an explicit local; R14 contract (ensures) written on a closure; R15 `iter.all(closure)` replaced by the body of the default method Iterator::all with the closure body at its single call (bases_match)",
+    "extraction rules of DESIGN.md §4: R1 attributes/doc comments stripped, visibility widened; R2 debug_assert -> static obligation; R3 break-value lowering; R4 `&a op &b` -> operator call; R5 for-desugaring; R6 outlining of iterator-adapter / fn-pointer expressions into assumed fns; R7 closure lifting; R8 nested fn hoisting; R9 trait-impl methods emitted as inherent methods / associated types spelled out; R10 type ascription; R11 fn renamed to dodge a Verus name clash; R12 match-arm guard / expression arm spelled as a block; R13 `mut` by-value parameter as an explicit local; R14 contract (ensures) written on a closure; R16 the block of a match arm of eval() lifted to a named fn over its free variables (NUMBER, PERCENTAGE arms; eval() as a whole is outside Verus); R15 `iter.all(closure)` replaced by the body of the default method Iterator::all with the closure body at its single call (bases_match)",
     "BigRational viewed as `real`, BigInt as `int` (every operation used is closed on Q); i32/u32/usize arithmetic keeps its overflow obligations (discharged under the stated bounds, never treated as mathematical)",
 ]
 
@@ -46,6 +46,7 @@ SHIM_TRUST = {
     "shims/unit_shim.rs": "ConversionMethods opaque; R6 outlines call_methods_to/from, call_vtable_powers (adds power*derived_dim, assumed-by-table: proved per closure in unit TABLES), Unit::conversion = table entry with non-zero fraction (assumed-by-table)",
     "shims/peekable_bytes.rs": "std Peekable<Bytes>: peek/next yield the remaining bytes in order (assume_specification); R6 outline of `number.bytes().peekable()` yields the UTF-8 bytes of the str; str_bytes is uninterpreted",
     "shims/syntree_node.rs": "syntree Node/Children as a sequence of UNode {kind, span, int, units, units_ok}; R6 outlines: str::parse::<i32> on a node's text (int), the text of a WORD node, &str -> Box<str>; UnitParser (4-line wrapper over the logos-generated generated::unit::parse) assumed to yield the node's (prefix, unit) pairs in order; Result::transpose",
+    "shims/query_shim.rs": "Query::source(span) returns the query text between the span's offsets (str slicing; assumed)",
     "shims/syntree_span.rs": "syntree::Span<u32> as plain data; LookupError / ParseIntError / syntree::Error opaque",
 }
 
